@@ -80,9 +80,17 @@ pub fn convert_node(ast: &ASTTy, imp: &mut Imports, state: &State, ctx: &Context
         NodeTy::Str { lit, expressions } if expressions.is_empty() => Core::Str {
             string: lit.clone(),
         },
-        NodeTy::Str { lit, .. } => Core::FStr {
-            string: lit.clone(),
-        },
+        NodeTy::Str { lit, expressions } => {
+            // The interpolated expressions are Mamba expressions: they are converted like any
+            // other expression instead of being copied verbatim into the Python f-string.
+            let exprs: Vec<String> = convert_vec(expressions, imp, state, ctx)?
+                .iter()
+                .map(|core| format!("{core}").trim_end().to_string())
+                .collect();
+            Core::FStr {
+                string: interpolate(lit, &exprs),
+            }
+        }
 
         NodeTy::Undefined => Core::None,
         NodeTy::ExpressionType { expr, .. } => {
@@ -321,6 +329,47 @@ pub fn convert_node(ast: &ASTTy, imp: &mut Imports, state: &State, ctx: &Context
     };
 
     Ok(core)
+}
+
+/// Replace the text between each pair of top-level braces of a string literal by the Python
+/// text of the corresponding interpolated expression. Braces are found as the lexer finds them:
+/// a brace after a backslash does not count, empty braces carry no expression.
+fn interpolate(lit: &str, exprs: &[String]) -> String {
+    let (mut out, mut current) = (String::new(), String::new());
+    let (mut depth, mut back_slash) = (0, false);
+    let mut exprs = exprs.iter();
+
+    for c in lit.chars() {
+        if depth > 0 {
+            current.push(c);
+        } else {
+            out.push(c);
+        }
+
+        if !back_slash {
+            if c == '{' {
+                depth += 1;
+            } else if c == '}' && depth > 0 {
+                depth -= 1;
+                if depth == 0 {
+                    let inner = &current[..current.len() - 1];
+                    if inner.is_empty() {
+                        out.push('}');
+                    } else if let Some(expr) = exprs.next() {
+                        out.push_str(expr);
+                        out.push('}');
+                    } else {
+                        out.push_str(&current);
+                    }
+                    current.clear();
+                }
+            }
+        }
+        back_slash = c == '\\';
+    }
+
+    out.push_str(&current);
+    out
 }
 
 fn append_assign(core: &Core, assign_to: &Core, name: &Option<Name>, imp: &mut Imports) -> Core {
